@@ -383,22 +383,32 @@ Spec == Init /\ [][Next]_vars
 
 \* Fairness for the liveness configs: every internal step and the
 \* environment's answers; the application's own moves (Call, CloseBegin,
-\* ReturnCancelled) are not fair.
+\* ReturnCancelled) are not fair.  TLC needs constant quantifier bounds in
+\* temporal formulas, hence the fixed ranges and the domain guards.
+CallIds == 1 .. 3
+PwIds == 1 .. 4
+BatchIds == 1 .. 6
+Parts == 0 .. 1
+Topics == {"t", "u"}
+InCalls(c) == c \in DOMAIN cpc
 Fair ==
-  /\ \A c \in DOMAIN cfg.plan :
-        /\ WF_vars(Enter(c)) /\ WF_vars(ValidateReturn(c)) /\ WF_vars(BatchBegin(c))
-        /\ WF_vars(BatchEnd(c)) /\ WF_vars(ReturnDone(c))
-        /\ WF_vars(\E p \in 0 .. 3 : Balance(c, p))
-        /\ WF_vars(BalanceFail(c, "topic"))
-        /\ \A t \in DOMAIN cfg.nparts : \A p \in 0 .. 3 :
-              WF_vars(NewPartitionWriter(c, <<t, p>>)) /\ WF_vars(WMBegin(c, <<t, p>>))
-        /\ WF_vars(WMNewBatch(c)) /\ WF_vars(WMOverflow(c)) /\ WF_vars(WMAdd(c))
-        /\ WF_vars(WMFull(c)) /\ WF_vars(WMEnd(c))
-  /\ \A b \in 1 .. 6 : WF_vars(AwaitTimer(b)) /\ WF_vars(AwaitReady(b))
-  /\ \A p \in 1 .. 4 :
-        /\ WF_vars(SenderGet(p)) /\ WF_vars(SenderExit(p)) /\ WF_vars(Complete(p)) /\ WF_vars(Done(p))
-        /\ WF_vars(\E o \in Outcomes : (o \in cfg.outcomes) /\ Attempt(p, o))
-  /\ \A t \in DOMAIN cfg.nparts : \A p \in 0 .. 3 : WF_vars(ClosePW(<<t, p>>))
+  /\ \A c \in CallIds :
+        /\ WF_vars(InCalls(c) /\ Enter(c)) /\ WF_vars(InCalls(c) /\ ValidateReturn(c))
+        /\ WF_vars(InCalls(c) /\ BatchBegin(c)) /\ WF_vars(InCalls(c) /\ BatchEnd(c))
+        /\ WF_vars(InCalls(c) /\ ReturnDone(c))
+        /\ WF_vars(InCalls(c) /\ \E p \in Parts : Balance(c, p))
+        /\ WF_vars(InCalls(c) /\ cpc[c] \in {"entered", "balancing"} /\ BalanceFail(c, "topic"))
+        /\ \A t \in Topics : \A p \in Parts :
+              /\ WF_vars(InCalls(c) /\ NewPartitionWriter(c, <<t, p>>))
+              /\ WF_vars(InCalls(c) /\ WMBegin(c, <<t, p>>))
+        /\ WF_vars(InCalls(c) /\ WMNewBatch(c)) /\ WF_vars(InCalls(c) /\ WMOverflow(c))
+        /\ WF_vars(InCalls(c) /\ WMAdd(c)) /\ WF_vars(InCalls(c) /\ WMFull(c)) /\ WF_vars(InCalls(c) /\ WMEnd(c))
+  /\ \A b \in BatchIds : WF_vars(b \in DOMAIN batch /\ AwaitTimer(b)) /\ WF_vars(b \in DOMAIN batch /\ AwaitReady(b))
+  /\ \A p \in PwIds :
+        /\ WF_vars(p \in DOMAIN pw /\ SenderGet(p)) /\ WF_vars(p \in DOMAIN pw /\ SenderExit(p))
+        /\ WF_vars(p \in DOMAIN pw /\ Complete(p)) /\ WF_vars(p \in DOMAIN pw /\ Done(p))
+        /\ WF_vars(p \in DOMAIN pw /\ \E o \in Outcomes : (o \in cfg.outcomes) /\ Attempt(p, o))
+  /\ \A t \in Topics : \A p \in Parts : WF_vars(ClosePW(<<t, p>>))
   /\ WF_vars(CloseUnlock) /\ WF_vars(CloseReturn)
 
 FairSpec == Spec /\ Fair
@@ -411,12 +421,12 @@ TypeOK ==
   /\ \A b \in DOMAIN batch : batch[b].state # "dropped"
 
 \* Liveness (checked under FairSpec)
-BatchOf(m) == { b \in DOMAIN batch : m \in Range(batch[b].msgs) }
-L_Flush == \A c \in DOMAIN cfg.plan : \A i \in DOMAIN cfg.plan[c].msgs :
-             [](( \E b \in DOMAIN batch : <<c, i>> \in Range(batch[b].msgs))
-                  => <>(\E b \in DOMAIN batch : <<c, i>> \in Range(batch[b].msgs)
-                                               /\ batch[b].state = "done"))
+InBatch(c, i) == \E b \in DOMAIN batch : <<c, i>> \in Range(batch[b].msgs)
+BatchDone(c, i) == \E b \in DOMAIN batch : <<c, i>> \in Range(batch[b].msgs) /\ batch[b].state = "done"
+\* C08: every accepted message is sent (or exhausts its attempts) without further input
+L_Flush == \A c \in CallIds : \A i \in 1 .. 3 : [](InBatch(c, i) => <>BatchDone(c, i))
+\* C09: Close returns
 L_Close == (closeState = "begun") ~> (closeState = "returned")
-L_CallsReturn == \A c \in DOMAIN cfg.plan :
-             [](c \in DOMAIN calls => <>(calls[c].returned))
+\* every call returns
+L_CallsReturn == \A c \in CallIds : [](InCalls(c) => <>(cpc[c] = "returned"))
 =============================================================================
